@@ -94,6 +94,35 @@ type End struct {
 	rdeadline time.Time
 	rtimer    *time.Timer
 	wdeadline time.Time
+
+	// eofWithData: the Read that hands out the last queued octets of a
+	// half-closed peer returns them together with io.EOF (n > 0, io.EOF), as
+	// io.Reader allows and as crypto/tls does when the close alert arrives
+	// with the last record. Default: the octets first, (0, io.EOF) next.
+	eofWithData bool
+}
+
+// SetEOFWithData switches the end-of-stream style of this end's Read (see the
+// field).
+func (e *End) SetEOFWithData(on bool) {
+	e.hub.mu.Lock()
+	e.eofWithData = on
+	e.hub.mu.Unlock()
+}
+
+// WriteFinal writes p and half-closes in one step: the peer can never observe
+// the octets without the end of the stream behind them.
+func (e *End) WriteFinal(p []byte) {
+	e.hub.mu.Lock()
+	if !e.closed && !e.out.aborted && !e.peer.closed && !e.out.wclosed {
+		if len(p) > 0 {
+			e.out.segs = append(e.out.segs, append([]byte(nil), p...))
+			e.out.written += int64(len(p))
+		}
+		e.out.wclosed = true
+	}
+	e.hub.mu.Unlock()
+	e.hub.cond.Broadcast()
 }
 
 type memAddr string
@@ -142,6 +171,9 @@ func (e *End) Read(p []byte) (int, error) {
 			}
 			e.in.consumed += int64(n)
 			e.hub.cond.Broadcast()
+			if e.eofWithData && len(e.in.segs) == 0 && e.in.wclosed {
+				return n, io.EOF
+			}
 			return n, nil
 		}
 		if e.in.wclosed {
